@@ -69,6 +69,12 @@ func (s *server) Close(ctx context.Context) error {
 			conn, ok := value.(gracefulExit)
 			if !ok || conn.isIdle() {
 				value.(Connection).Close()
+				// Close only marks the connection when somebody else holds it by now (a handler
+				// started since the idle check, a hang-up being processed): it is torn down and
+				// untracked when that finishes, and must be waited for like a busy connection.
+				if _, tracked := s.connections.Load(key); tracked {
+					activeConn++
+				}
 			} else {
 				activeConn++
 			}
